@@ -64,7 +64,7 @@ func (r *Run) checkBoundFn(P, where string, g *ssa.Function, fromIdx, untilIdx i
 			r.R.Unk(id, rule, core.FuncName(g), r.where(g), why, "cannot evaluate: "+why2)
 			return
 		}
-		res := stripConv(core.RetOp(ret, 0))
+		res := stripConv(ev.ret(ret, 0))
 		wantDefault := env.rank["from"] != env.rank["0"] && env.rank["until"] == env.rank["0"]
 		kind := "other"
 		if res == until {
@@ -302,7 +302,7 @@ func (r *Run) checkWindowTest(P string, w *ssa.Function, iFrom, iUntil, iAnchor 
 			r.R.Unk(id, rule, core.FuncName(w), r.where(w), why, "cannot evaluate: "+why2)
 			return
 		}
-		accept := isNilConstV(core.RetOp(ret, ei))
+		accept := isNilConstV(ev.ret(ret, ei))
 		z := env.rank["0"]
 		want := (env.rank["from"] == z && env.rank["until"] == z) ||
 			(!(env.rank["from"] > env.rank["anchor"]) && !(env.rank["bound"] < env.rank["anchor"]))
@@ -498,7 +498,7 @@ func (r *Run) checkWindowTestNumeric(P string, w *ssa.Function, from, until, anc
 						return false
 					}
 					n++
-					accept := isNilConstV(core.RetOp(ret, ei))
+					accept := isNilConstV(ev.ret(ret, ei))
 					bound := u
 					if f != 0 && u == 0 {
 						bound = f + d
